@@ -92,6 +92,23 @@ class _FieldOfDressed:
                 delattr(container, "_dressed_" + self.name)
 
 
+def _is_default(defaults, name, value):
+    """True if `value` equals the default of the xofield `name`"""
+    if name not in defaults:  # no default available: always store
+        return False
+    default = defaults[name]
+    if hasattr(default, "to_str"):  # String
+        default = default.to_str()
+    elif hasattr(default, "to_nparray"):  # Array
+        try:
+            default = default.to_nparray()
+        except NotImplementedError:
+            return False
+    if np.shape(default) != np.shape(value):
+        return False
+    return not np.any(default != value)
+
+
 class JEncoder(json.JSONEncoder):
     def default(self, obj):
         if isinstance(obj, np.ndarray):
@@ -318,7 +335,9 @@ class HybridClass(metaclass=MetaHybridClass):
                 out[ff] = vv.to_dict()
             elif hasattr(vv, "_to_dict"):
                 out[ff] = vv._to_dict()
-            elif np.any(defaults.get(ff) != vv):
+            elif not _is_default(
+                defaults, obj._inverse_rename.get(ff, ff), vv
+            ):
                 # Only include those scalar values that are not default.
                 out[ff] = vv
 
